@@ -7,7 +7,8 @@ Driver commands of property C14.
   (`lin` = same, but answer with the linear reference rule instead of the index walk).
   ops: `R|method|path|hid|lit|requoted|…` (add_route), `S|prefix|requoted|hid` (add_static),
   `[` (new sub-application), `A|prefix|requoted` (close it: add_subapp), `M|e|domain` /
-  `M|m|domain` (close it: add_domain, exact / mask), `F` (freeze the current application).
+  `M|m|domain` (close it: add_domain, exact / mask), `F` (freeze the current application),
+  `V|path|hid|m1,m2,…|lit|requoted|…` (add_view of a class defining the methods m1, m2, …; `~` = none).
   request: `Q|method|path_safe|normpath|host` (`host` = `~` for "no Host header").
   reply: `ops=<code,…> dump=<tables> res=<result;…>`
 * `uf <path|lit|requoted|…> <name|quoted|…>`   url_for
@@ -92,6 +93,13 @@ def build : List String → List (Table × Bool) → List String → Option (Lis
         | .ok t' => build rest ((t', fz) :: st') ("ok" :: codes)
         | .error e => build rest st (showErr e :: codes)
       | _, _, _, _ => none
+    | "V" :: path :: hid :: _defined :: rq, (t, fz) :: st' =>
+      match parseStr path, hid.toNat?, pairs rq with
+      | some path, some hid, some rq =>
+        match addRouteOn fz rq t STAR path hid with
+        | .ok t' => build rest ((t', fz) :: st') ("ok" :: codes)
+        | .error e => build rest st (showErr e :: codes)
+      | _, _, _ => none
     | ["S", pfx, q, hid], (t, fz) :: st' =>
       match parseStr pfx, parseStr q, hid.toNat? with
       | some pfx, some q, some hid =>
@@ -135,14 +143,24 @@ def build : List String → List (Table × Bool) → List String → Option (Lis
     | ["XM", "b"], _ :: _ :: _ => build rest st ("E_VALUE" :: codes)
     | _, _ => none
 
+/-- the class-based views of a program: `V|path|hid|m1,m2,…|…` ↦ (hid, defined methods) -/
+def viewsOf (toks : List String) : Option (List (Nat × List Str)) :=
+  (toks.filter (fun t => t.startsWith "V|")).mapM (fun t =>
+    match t.splitOn "|" with
+    | _ :: _ :: hid :: defined :: _ => do
+      let h ← hid.toNat?
+      let ms ← if defined == "~" then pure [] else (defined.splitOn ",").mapM parseStr
+      pure (h, ms)
+    | _ => none)
+
 def runTbl (useLinear : Bool) (toks : List String) : String :=
   let ops := toks.filter (fun t => !t.startsWith "Q|")
   let qs := toks.filter (fun t => t.startsWith "Q|")
-  match build ops [(Table.empty, false)] [], qs.mapM parseReq with
-  | some (codes, [(t, _)]), some reqs =>
+  match build ops [(Table.empty, false)] [], qs.mapM parseReq, viewsOf toks with
+  | some (codes, [(t, _)]), some reqs, some views =>
     let f := if useLinear then linear FUEL t else resolve FUEL t
-    s!"ops={",".intercalate codes} dump={dump t} res={";".intercalate (reqs.map (fun q => showResult (f q)))}"
-  | _, _ => "bad-op"
+    s!"ops={",".intercalate codes} dump={dump t} res={";".intercalate (reqs.map (fun q => showResult (afterView views q.method (f q))))}"
+  | _, _, _ => "bad-op"
 
 def handle : List String → String
   | "tbl" :: toks => runTbl false toks
